@@ -8,24 +8,24 @@ ids=("$@"); [ ${#ids[@]} -eq 0 ] && ids=($(ls seeded | grep -E '^C[0-9]+-[A-Z]$'
 WT=/dev/shm/mut/sweep-$$; mkdir -p /dev/shm/mut
 git -C /repo worktree add --detach "$WT" HEAD -f >/dev/null 2>&1 || { echo "cannot create worktree"; exit 3; }
 trap 'git -C /repo worktree remove --force "$WT" >/dev/null 2>&1; rm -rf "$WT"' EXIT
-declare -A EXTRA=( [C01-B]="C11" [C03-A]="C14" [C05-C]="C14" )
+declare -A EXTRA=( [C01-B]="C11" [C03-A]="C14" [C05-C]="C14" [C01-D]="C11" [C02-D]="C01" )
 [ -n "${SWEEP_EXTRA:-}" ] && for id in "${ids[@]}"; do EXTRA[$id]="${EXTRA[$id]:-} $SWEEP_EXTRA"; done
 OUT=/dev/shm/mut/sweep-$$.jsonl; : > $OUT
 for id in "${ids[@]}"; do
   prop=${id%%-*}
   git -C "$WT" checkout -q -- . ; git -C "$WT" clean -qfd
-  if ! git -C "$WT" apply "/verif/seeded/$id/patch.diff" 2>/dev/null; then echo "{\"seed\":\"$id\",\"check\":\"$prop\",\"verdict\":\"NOAPPLY\"}" >> $OUT; echo "$id NOAPPLY"; continue; fi
+  if ! git -C "$WT" apply "/verif/seeded/$id/patch.diff" 2>/dev/null; then printf '%s\t%s\tNOAPPLY\t\n' "$id" "$prop" >> $OUT; echo "$id NOAPPLY"; continue; fi
   for chk in $prop ${EXTRA[$id]:-}; do
     VERIF_REPO="$WT" VERIF_EVIDENCE_DIR=/dev/shm/mut/sweep-ev-$$ timeout 3000 ./check $chk quick > /dev/shm/mut/sweep-$$.log 2>&1; rc=$?
     v=MISSED; [ $rc -eq 1 ] && v=CAUGHT; [ $rc -ge 2 ] && v="HARNESS_rc$rc"
-    sig=$(grep -E "^  bucket" /dev/shm/mut/sweep-$$.log | head -1 | cut -c1-160 | sed 's/"/\\"/g')
-    echo "{\"seed\":\"$id\",\"check\":\"$chk\",\"verdict\":\"$v\",\"first_bucket\":\"$sig\"}" >> $OUT
+    sig=$(grep -E "^  bucket" /dev/shm/mut/sweep-$$.log | head -1 | cut -c1-160 | tr -d '\\"' | tr '\t' ' ')
+    printf '%s\t%s\t%s\t%s\n' "$id" "$chk" "$v" "$sig" >> $OUT
     echo "$id $chk $v"
   done
 done
 /venv/bin/python - "$OUT" <<'PY'
 import json,sys
-rows=[json.loads(l) for l in open(sys.argv[1])]
+rows=[dict(zip(("seed","check","verdict","first_bucket"), (l.rstrip("\n").split("\t")+["",""])[:4])) for l in open(sys.argv[1]) if l.strip()]
 import os
 res=json.load(open("/verif/seeded/RESULTS.json")) if os.path.exists("/verif/seeded/RESULTS.json") else {}
 for r in rows: res.pop(r["seed"],None)
